@@ -93,9 +93,14 @@ Definition ieq (a b : str) : bool := seq_eqb (C03.Model.fold a) (C03.Model.fold 
 
 (* IrcUser.checkHostmask(hostmask, useAuth).  [istr]: the argument is an
    IrcString taken out of an IrcSet (setUser's loop), whose == folds case *)
+(* `hostmask == authmask and (not self.secure or self.checkHostmask(hostmask, useAuth=False))`:
+   a login only counts for a secure account if one of its masks matches as well (repair of C04.F25) *)
+Definition auth_eq (istr : bool) (u : user) (h : str) : str -> str -> bool :=
+  fun a b => (if istr then ieq else seq_eqb) a b && (negb (u_secure u) || truthy (first_match (u_masks u) h)).
+
 Definition checkHostmask (istr : bool) (timeout now : Z) (u : user) (h : str) (useAuth : bool) : user * hres :=
   if useAuth then
-    let '(hit, removals) := scan_auth (if istr then ieq else seq_eqb) timeout now h (u_auth u) [] in
+    let '(hit, removals) := scan_auth (auth_eq istr u h) timeout now h (u_auth u) [] in
     let u' := User (u_name u) (u_masks u) (fold_left (fun a x => remove_first x a) removals (u_auth u)) (u_secure u) in
     if hit then (u', RTrue) else (u', first_match (u_masks u) h)
   else (u, first_match (u_masks u) h).
@@ -680,7 +685,14 @@ Definition cmd_secure (timeout now : Z) (o : oracle) (s : st) (P : str) (value :
       if truthy x then
         let u2 := set_secure u1 v in
         let '(s3, r3) := setUser timeout now (store s2 uid u2) uid u2 in
-        match r3 with Ok _ => Out s3 true a0 false | Raise _ => Out s3 false a0 true end
+        match r3 with
+        | Ok _ => Out s3 true a0 false
+        | Raise e =>
+            match first_handler gen.T04.SECURE_HANDLERS e, uget uid (s_users s3) with
+            | Some true, Some u3 => Out (store s3 uid (set_secure u3 (u_secure u1))) false a0 true    (* user.secure = secure *)
+            | _, _ => Out s3 false a0 true
+            end
+        end
       else Out s2 false a0 false
     end
   end.
